@@ -131,7 +131,7 @@ def run_hist(init, hist, check_from=0):
                 # merging is on the reference state, so the implementation's observable state must equal it after
                 # every command: which connection is marked as selected in the listing
                 lst, _ = s.cmd('connection')
-                marked = [l.split()[1] for l in lst if l.lstrip().startswith('=>')]
+                marked = [cl['name'] for cl in map(outparse.connection_line, lst) if cl and cl['selected']]
                 if e[1] in CMD_REF:
                     ref.step(CMD_REF[e[1]])
                 elif e[1] == 'connection all':
@@ -154,8 +154,9 @@ def run_hist(init, hist, check_from=0):
             want_counts[v.conn] = want_counts.get(v.conn, 0) + 1
         got_counts = {}
         for l in o:
-            w = l.split()
-            got_counts[w[0]] = int(w[-2])
+            cl = outparse.connection_line(l)
+            if cl:
+                got_counts[cl['name']] = cl['messages']
         if got_counts != want_counts:
             V.append(Violation('recorded.counts', case, {'expected': want_counts, 'observed': got_counts}))
         key = [f_out, selection, sorted((c, len(v)) for c, v in created.items())]
